@@ -194,8 +194,10 @@ def _havoc(interp, frame, spec, modified_names, tag):
             # a name the loop specification does not know (a temporary introduced by a later edit of the
             # function): treated as a loop-local temporary, i.e. UNBOUND at the loop head and after the loop.
             # Conservative: a read of a value carried over from another iteration or from before the loop
-            # fails (UnboundLocalError on that path) instead of seeing a stale value.
+            # is a limit of the verifier (Unsupported: the specification says nothing about that value)
+            # instead of seeing a stale value.
             ty = 'local'
+            frame.undeclared_loop_names.add(name)
         if ty == 'in-place':
             continue
         if ty == 'local':      # a loop-local temporary: dead at loop head
